@@ -44,12 +44,23 @@ class Gen:
         self.libs = []            # (filename, body)
         self.segdefs = []         # (name, start, pc or None)
         self.size = size or rng.choice([3, 6, 10, 16])
+        self.cids = {}
+        self.keep = []
+        self.slots = []           # (container id, file, byte offset of a line start, depth): a statement line may be inserted here
         self.feat = features or {}
         self.budget = 0
 
     def fresh(self):
         self.nid += 1
         return self.nid
+
+    def cid(self, items):
+        """a deterministic id of a statement list (id() values differ from run to run)"""
+        k = id(items)
+        if k not in self.cids:
+            self.cids[k] = len(self.cids)
+            self.keep.append(items)
+        return self.cids[k]
 
     # ------------------------------------------------------------------ AST construction (no text yet)
     def expr(self, env):
@@ -72,7 +83,7 @@ class Gen:
             if env.get("top"):
                 kinds += ["lblock"]
         if env.get("top"):
-            kinds += ["label", "branch", "abslabel", "wordlabel", "align"]
+            kinds += ["label", "abslabel", "wordlabel", "align"] + ([] if self.feat.get("no_branch") else ["branch"])
             if env.get("setpc_ok"):
                 kinds += ["setpc"]
         if self.macros and not env.get("in_lib") and env.get("macro_level", 99) > 0:
@@ -208,7 +219,9 @@ class Gen:
         if self.macros_first:
             self.render_macros(w)
         for n in self.top:
+            self.slots.append((self.cid(self.top), w.name, len(w.buf), 0))
             self.render_stmt(w, n, 0)
+        self.slots.append((self.cid(self.top), w.name, len(w.buf), 0))
         if not self.macros_first:
             self.render_macros(w)
         if r.random() < 0.3:
@@ -219,7 +232,9 @@ class Gen:
             if r.random() < 0.5:
                 lw.put("// library\n")
             for n in body:
+                self.slots.append((self.cid(body), lw.name, len(lw.buf), 0))
                 self.render_stmt(lw, n, 0)
+            self.slots.append((self.cid(body), lw.name, len(lw.buf), 0))
         self.files = {k: v.text() for k, v in self.w.items()}
         return self.files
 
@@ -227,7 +242,9 @@ class Gen:
         for name, has_arg, body in self.macros:
             w.put(".macro %s(%s) {\n" % (name, "x" if has_arg else ""))
             for n in body:
+                self.slots.append((self.cid(body), w.name, len(w.buf), 1))
                 self.render_stmt(w, n, 1)
+            self.slots.append((self.cid(body), w.name, len(w.buf), 1))
             w.put("}\n")
 
     def render_expr(self, w, e):
@@ -264,8 +281,11 @@ class Gen:
         else:
             w.put("\n")
         for n in items:
+            if not inline:
+                self.slots.append((self.cid(items), w.name, len(w.buf), depth + 1))
             self.render_stmt(w, n, depth + 1, inline)
         if not inline:
+            self.slots.append((self.cid(items), w.name, len(w.buf), depth + 1))
             w.put("  " * depth)
         w.put("}")
 
@@ -345,6 +365,8 @@ class Exec:
         self.macro_n = 0
         self.call_stack = []      # name spans of the active invocations, outermost first
         self.bad_branches = []
+        self.branch_slack = 0     # > 0: branches closer than this to the limits of their range count as bad (see build)
+        self.executed = set()     # ids of the statement lists that were executed at least once
         self.setpcs = {}
         if g.segdefs:
             self.segs = {n: {"pc": s, "toff": (0 if p is None else p - s), "max": s, "initial_pc": s,
@@ -397,6 +419,7 @@ class Exec:
         return self.labels_in.get(name, 0x1234)
 
     def run_items(self, items, env):
+        self.executed.add(self.g.cid(items))
         for n in items:
             self.run(n, env)
 
@@ -426,7 +449,7 @@ class Exec:
         elif k == "branch":
             target = self.label_value(n["label"])
             off = target - (self.tpc() + 2)
-            if not (-128 <= off <= 127):
+            if not (-128 + self.branch_slack <= off <= 127 - self.branch_slack):
                 self.bad_branches.append(n)
             self.emit(n["span"], [BRANCH[n["m"]], off & 0xFF])
         elif k == "abslabel":
@@ -477,10 +500,11 @@ class Exec:
             self.with_scope(("imp", n["id"]), lambda: self.run_items(body, dict(env, const=n["param"])))
 
 
-def build(rng, size=None):
-    """-> dict(files, segdefs, run(move) -> Exec)"""
-    for _ in range(50):
-        g = Gen(rng, size).program()
+def build(rng, size=None, branch_slack=0, no_branch=False):
+    """-> (Gen with .files, label values).  branch_slack: every branch keeps that many bytes of slack to the limits of its
+    range (so that a few inserted bytes cannot push it out of range); no_branch: the program has no branch instructions."""
+    for _ in range(200):
+        g = Gen(rng, size, {"no_branch": no_branch}).program()
         g.render()
         # pass 1: label values and set-pc addresses (independent of the macro attribution mode)
         e1 = Exec(g, False)
@@ -504,6 +528,7 @@ def build(rng, size=None):
                 buf = buf[:at] + ("* = $%04x" % e1.setpcs[n["id"]]).encode() + buf[at + 9:]
         main.buf = buf
         e2 = Exec(g, False, labels)
+        e2.branch_slack = branch_slack
         e2.run_items(g.top, {})
         if e2.bad_branches or any(s["max"] > 0xFFF0 for s in e2.segs.values()):
             continue                      # a branch out of range or a segment near the end of memory: another program
